@@ -299,3 +299,5 @@ func verifMemberOf(s string, words []string) bool {
 }
 
 func verifContains(s, sub string) bool { return strings.Contains(s, sub) }
+
+func verifHasPrefix(s, prefix string) bool { return strings.HasPrefix(s, prefix) }
